@@ -92,6 +92,10 @@ queue_init(void)
 	 * because he modifies data before calling execve */
 	switch (qpid = fork_clean()) {
 	case -1:
+		close(fd0[0]);
+		close(fd0[1]);
+		close(fd1[0]);
+		close(fd1[1]);
 		if ( (i = err_fork()) )
 			return i;
 		return EDONE;
